@@ -210,7 +210,7 @@ ASSUME DivIdentity == \A a \in Operands, b \in Operands \ {0} : /\ a = b * Floor
 \* ---------------------------------------------------------------- constant sets named by the cfg files
 OperandsA == {0 - 7, 0, 2, 3}
 OperandsE == {0 - 7, 0, 3}
-OpsLongQ  == {"+", "-", "*", "%", "<", "==", "and", "or"}
+OpsLongQ  == {"-", "*", "%", "<", "==", "and"}
 OperandsB == {0 - 7, 3}
 OperandsC == {0 - 7, 0 - 1, 0, 1, 2, 3, 7}
 OperandsD == {0 - 7, 2, 3}
